@@ -77,6 +77,21 @@ def cfg_expr(l, ty):
     return "typename %s::configuration_t{}" % ty
 
 
+def alt_layer(l):
+    """the same layer with different configuration VALUES (extents and counts unchanged)"""
+    a = dict(l)
+    k = l["k"]
+    if k == "clamp":
+        a["lo"] = [x + 1 for x in l["lo"]]; a["hi"] = [x + 2 for x in l["hi"]]
+    elif k == "backup":
+        a["lo"] = [x + 1 for x in l["lo"]]; a["hi"] = [x + 1 for x in l["hi"]]; a["dflt"] = [x - 5 for x in l["dflt"]]
+    elif k == "affine":
+        a["A"] = [[(v + 3 if j == len(row) - 1 else (2 * v if v else 0)) for j, v in enumerate(row)] for row in l["A"]]
+    elif k == "constant":
+        a["value"] = [x + 7 for x in l["value"]]
+    return a
+
+
 def same_expr(l, var):
     k = l["k"]
     if k == "clamp":
@@ -143,6 +158,12 @@ def gen(case, path, ident):
         L.append("    vs::fill_through<L%d>(f.backend()%s);" % (j, ".get_backend()" * j))
     L.append("    return f;")
     L.append("}")
+    # the same stack with different configuration values and different stored data: the target of assignments
+    alt = [alt_layer(l) for l in layers]
+    L.append("static F build_alt() {")
+    L.append("    F f(covfie::make_parameter_pack(%s));" % ", ".join(cfg_expr(alt[i], "L%d" % i) for i in range(depth)))
+    L.append("    return f;      // (storage left zero-initialised: differs from the filled field)")
+    L.append("}")
     L.append("")
     cs = SCALAR[ins]
     L.append("using coord_t = typename F::coordinate_t;")
@@ -185,6 +206,12 @@ def gen(case, path, ident):
     else:
         last = "%s.get_configuration()" % inner_acc
     L.append("    { F g(covfie::make_parameter_pack(%s)); check_values(g, \"c17/rebuilt-from-reported-configuration\"); }" % (", ".join([x for x in [rep, last] if x])))
+    if lay and lay[0] > 0 and layers[lay[0]]["k"] in ("strided", "morton"):     # (hilbert and array only accept their storage as an rvalue)
+        j = lay[0]
+        outer = ", ".join("%s.get_configuration()" % ("f.backend()" + ".get_backend()" * i) for i in range(j))
+        L.append("    { auto storage = %s;      // a named copy of the storage-order layer's data, used for two rebuilds" % ("f.backend()" + ".get_backend()" * j))
+        L.append("      F g1(covfie::make_parameter_pack(%s, storage)); F g2(covfie::make_parameter_pack(%s, storage));" % (outer, outer))
+        L.append("      check_values(g1, \"c17/rebuilt-from-named-storage\"); check_values(g2, \"c17/rebuilt-twice-from-the-same-storage\"); }")
     # positional helper
     if depth <= 10:
         L.append("    { F h(covfie::make_parameter_pack_for<F>(%s));" % cfgs)
@@ -195,7 +222,9 @@ def gen(case, path, ident):
     # ---------------- C13: the rest of the API, executed
     L.append("    { F d; (void)d; }                                            // default construction")
     L.append("    { F c1(f); check_values(c1, \"c13/copy-constructed\"); F c2(std::move(c1)); check_values(c2, \"c13/move-constructed\");")
-    L.append("      F c3 = build(); c3 = f; check_values(c3, \"c13/copy-assigned\"); F c4 = build(); c4 = std::move(c3); check_values(c4, \"c13/move-assigned\"); }")
+    L.append("      F c3 = build_alt(); c3 = f; check_values(c3, \"c13/copy-assigned\"); F c4 = build_alt(); c4 = std::move(c3); check_values(c4, \"c13/move-assigned\");")
+    L.append("      F c5 = build_alt(); F c6(f); std::swap(c5, c6); check_values(c5, \"c13/swapped\");")
+    L.append("      F c7 = build_alt(); c7 = F(f); check_values(c7, \"c13/move-assigned-from-temporary\"); }")
     L.append("    { std::stringstream ss; f.dump(ss); F l(ss); check_values(l, \"c13/dumped-and-loaded\");")
     L.append("      std::stringstream s2; l.dump(s2); vs::check(ss.str() == s2.str(), \"c13/redump-bytes\", \"\\\"len\\\":0\"); }")
     # conversion from a compatible stack
